@@ -508,7 +508,8 @@ def guard_probes(ctx):
                    (fn, pre + ((0.0, 1.0),), {"interval_where_positive": (-1.0, INF)}, False),
                    (fn, pre + ((-INF, 1.0),), {"interval_where_positive": (-INF, 2.0)}, True),
                    (fn, pre + ((0.0, INF),), {"interval_where_positive": (-1.0, INF)}, True),
-                   (fn, pre + ((0.0, 1.0, 2.0),), {}, False)]
+                   (fn, pre + ((0.0, 1.0, 2.0),), {}, False),
+                   (fn, pre + ((0.0, 1.0),), {"interval_where_positive": (-1.0, 2.0, 3.0)}, False)]
     for fn, args, kw, ok in probes:
         st, val = core.call_impl(getattr(C, fn), f, o, *args, **kw)
         ctx.case(("guard", fn, repr(args[:1]), repr(sorted(kw)), ok))
